@@ -314,6 +314,65 @@ Section RoundTrip.
     constructor; [exact Hn1|constructor].
   Qed.
 
+  (* the same for trees that are not in normal form (what NewBoolCombination can build: nested same-operator
+     combinations, single-child combinations): Simplify of the visitor's tree is Simplify of the tree *)
+  Lemma flat_not_comb b n : Forall (not_comb b) (flat b n).
+  Proof.
+    unfold flat. destruct (simplify n) as [x|] eqn:E; [|constructor].
+    pose proof (simplify_simplified n x E) as Hx.
+    pose proof (promote_elements b [x] (Forall_cons x Hx (Forall_nil _))) as H.
+    cbn [flat_map] in H. rewrite app_nil_r in H.
+    eapply Forall_impl; [|exact H]. intros a [_ Ha]. exact Ha.
+  Qed.
+
+  Lemma flat_pair b n1 n2 : flat b (pair_up b n1 n2) = flat b n1 ++ flat b n2.
+  Proof.
+    unfold flat at 1. rewrite simplify_pair.
+    assert (HN : Forall (not_comb b) (flat b n1 ++ flat b n2)) by (apply Forall_app; split; apply flat_not_comb).
+    destruct (flat b n1 ++ flat b n2) as [|x [|y l]]; cbn [finish]; [reflexivity| |].
+    - inversion HN; subst. apply promote_not_comb. assumption.
+    - cbn [promote]. rewrite (proj2 (boolop_eqb_eq b b) eq_refl). reflexivity.
+  Qed.
+
+  Lemma simplify_fold b : forall ns n, ns <> [] ->
+    simplify (fold_left (pair_up b) ns n) = finish b (flat b n ++ concat (map (flat b) ns)).
+  Proof.
+    induction ns as [|n' ns IH]; intros n Hne; [congruence|].
+    destruct ns as [|n'' r].
+    - cbn [fold_left map concat]. rewrite app_nil_r. apply simplify_pair.
+    - change (fold_left (pair_up b) (n' :: n'' :: r) n) with (fold_left (pair_up b) (n'' :: r) (pair_up b n n')).
+      rewrite IH by discriminate. rewrite flat_pair. cbn [map concat]. rewrite <- app_assoc. reflexivity.
+  Qed.
+
+  Lemma simplify_comb_flat b ch : simplify (Comb b ch) = finish b (concat (map (flat b) ch)).
+  Proof.
+    cbn [simplify]. f_equal. induction ch as [|c ch IH]; [reflexivity|].
+    cbn [map concat keep_some]. unfold flat at 1. destruct (simplify c); cbn [keep_some flat_map]; rewrite IH; reflexivity.
+  Qed.
+
+  Lemma finish_flat b c : finish b (flat b c) = simplify c.
+  Proof.
+    unfold flat. destruct (simplify c) as [x|] eqn:E; [|reflexivity].
+    pose proof (simplify_simplified c x E) as Hx.
+    destruct x as [pt k o v|b' gc]; [reflexivity|]. cbn [promote].
+    destruct (boolop_eqb b' b) eqn:Eb; [|reflexivity].
+    apply boolop_eqb_eq in Eb. subst b'. inversion Hx as [|? ? Hlen _ _]; subst.
+    destruct gc as [|g1 [|g2 gc']]; cbn [length] in Hlen; try lia. reflexivity.
+  Qed.
+
+  Lemma simplify_unsimp_gen : forall q, simplify (unsimp q) = simplify q.
+  Proof.
+    induction q as [pt key o v|b ch IH] using node_ind'; [reflexivity|].
+    assert (HF : map (flat b) (map unsimp ch) = map (flat b) ch).
+    { induction ch as [|c ch IHch]; [reflexivity|]. inversion IH; subst. cbn [map]. f_equal; [|auto].
+      unfold flat. rewrite H1. reflexivity. }
+    rewrite simplify_comb_flat, <- HF. cbn [unsimp].
+    destruct ch as [|c1 ch]; [reflexivity|]. cbn [map] in *.
+    destruct (map unsimp ch) as [|x r] eqn:Er.
+    - cbn [fold_left map concat]. rewrite app_nil_r. symmetry. apply finish_flat.
+    - rewrite simplify_fold by discriminate. reflexivity.
+  Qed.
+
   (* ---- the text: no surrounding white space, not a phone number ---------------------------------------- *)
 
   Lemma trim_noop : forall s c r c' r', s = c :: r -> is_space c = false -> s = r' ++ [c'] -> is_space c' = false ->
@@ -509,11 +568,12 @@ Section RoundTrip.
     - rewrite Forall_forall in *. intros c Hc. apply IH; [exact Hc|apply Hch; exact Hc].
   Qed.
 
-  Theorem print_parse : forall q, valid_tree q -> simplified q ->
-    parse_query e (stringify p (Some q)) = QOk (Some q).
+  (* any valid tree without an empty combination: ParseQuery of its text returns Simplify of the tree *)
+  Theorem print_parse_gen : forall q, valid_tree q -> nonempty_combs q ->
+    parse_query e (stringify p (Some q)) = QOk (simplify q).
   Proof.
-    intros q Hv Hs.
-    pose proof (valid_tree_lexable q Hv) as Hl. pose proof (simplified_nonempty q Hs) as Hn.
+    intros q Hv Hn.
+    pose proof (valid_tree_lexable q Hv) as Hl.
     assert (Hg : good q) by (split; assumption).
     unfold parse_query, parse_front.
     rewrite (stringify_top q Hl).
@@ -522,7 +582,13 @@ Section RoundTrip.
     rewrite (parse_toks_top q Hg).
     rewrite (visit_ast_of q Hv Hn).
     rewrite (conditions_valid_unsimp q Hv).
-    rewrite (simplify_unsimp q Hs). reflexivity.
+    rewrite (simplify_unsimp_gen q). reflexivity.
+  Qed.
+
+  Theorem print_parse : forall q, valid_tree q -> simplified q ->
+    parse_query e (stringify p (Some q)) = QOk (Some q).
+  Proof.
+    intros q Hv Hs. rewrite (print_parse_gen q Hv (simplified_nonempty q Hs)). rewrite (simplify_fixed q Hs). reflexivity.
   Qed.
 End RoundTrip.
 
@@ -616,3 +682,40 @@ Proof.
   - exfalso. unfold cql_lex, lex in L.
     exact (lex_loop_no_fuel lexer_rules _ _ _ _ (le_n _) (le_n _) L).
 Qed.
+
+(* ---- from query TEXT: accepted texts with implicit conditions, aliases, juxtaposition, bare literals, a value ending
+   in a backslash; each formats to a text that parses to the same query --------------------------------------------- *)
+
+Definition reparses (e : penv) (s : list N) : bool :=
+  match parse_query e s with
+  | QOk (Some q) =>
+      match parse_query e (stringify ascii_print (Some q)) with
+      | QOk (Some q') => node_eqb q q'
+      | _ => false
+      end
+  | _ => false
+  end.
+
+(* Name has bob (age > 10 or QUOTE x y QUOTE) +12345 *)
+Definition text_example1 : list N :=
+  [78; 97; 109; 101; 32; 104; 97; 115; 32; 98; 111; 98; 32; 40; 97; 103; 101; 32; 62; 32; 49; 48; 32; 111; 114; 32; 34; 120;
+   32; 121; 34; 41; 32; 43; 49; 50; 51; 52; 53]%N.
+(* name = QUOTE a BACKSLASH QUOTE *)
+Definition text_example2 : list N := [110; 97; 109; 101; 32; 61; 32; 34; 97; 92; 34]%N.
+(* fields.x IS 1.50 AND (uuid != QUOTE a BACKSLASH QUOTE b QUOTE OR tel ~ 123) *)
+Definition text_example3 : list N :=
+  [102; 105; 101; 108; 100; 115; 46; 120; 32; 73; 83; 32; 49; 46; 53; 48; 32; 65; 78; 68; 32; 40; 117; 117; 105; 100; 32; 33; 61;
+   32; 34; 97; 92; 34; 98; 34; 32; 79; 82; 32; 116; 101; 108; 32; 126; 32; 49; 50; 51; 41]%N.
+
+Lemma text_examples :
+  parse_query (env_example false ascii_lower) text_example1
+  = QOk (Some (Comb BAnd [Cond PAttr AttributeName OpContains [98; 111; 98]%N;
+                          Comb BOr [Cond PField [97; 103; 101]%N OpGreaterThan [49; 48]%N;
+                                    Cond PAttr AttributeName OpContains [120; 32; 121]%N];
+                          Cond PURN k_tel OpContains [43; 49; 50; 51; 52; 53]%N]))
+  /\ reparses (env_example false ascii_lower) text_example1 = true
+  /\ parse_query (env_example false ascii_lower) text_example2 = QOk (Some (Cond PAttr AttributeName OpEqual [97; 92]%N))
+  /\ reparses (env_example false ascii_lower) text_example2 = true
+  /\ reparses (env_example false ascii_lower) text_example3 = true
+  /\ reparses (env_example true ascii_lower) text_example2 = true.
+Proof. repeat split; vm_compute; reflexivity. Qed.
